@@ -138,6 +138,9 @@ def main(argv):
                'abstracted': list(run.abstracted)[:30], 'unmodelled_calls': sorted(run.unmodelled)[:40],
                'assumed_contracts_used': sorted(run.assumed_used), 'pure_allowlist_used': sorted(run.pure_used)[:40],
                'inlined': sorted(run.inlined)[:20]}
+        if getattr(run, 'unsafe_skipped', 0):
+            row['safety_obligations_not_generated'] = run.unsafe_skipped
+            trusted.add('%s: index/division safety NOT claimed (flag no-safety: only the explicit clauses are verified)' % run.fn['name'])
         if getattr(run, 'trusted', None):
             row['trusted'] = run.trusted
             trusted.add('%s: contract trusted, body not verified (%s)' % (run.fn['name'], run.trusted))
